@@ -158,7 +158,10 @@ func (k Keeper) AllocateTokensToStakers(ctx sdk.Context, operatorAddress sdk.Acc
 			remaining = remaining.Sub(rewardToSingleStaker)
 		}
 	}
-	feePool.CommunityPool = feePool.CommunityPool.Add(rewardToAllStakers...)
+	// only what could not be allocated to the stakers (truncation dust, or everything if there is
+	// no staker power) goes to the community pool. adding the whole staker share here would book
+	// it twice: once to the stakers and once more to the community pool.
+	feePool.CommunityPool = feePool.CommunityPool.Add(remaining...)
 	logger.Info("allocate tokens to stakers successfully", "allocated amount is", rewardToAllStakers.String())
 }
 
